@@ -1,4 +1,5 @@
 import SnootyVerif.Proofs.Subst
+import SnootyVerif.Proofs.SubstWalk
 
 /-!
 # C07 — Substitutions and source constants resolve by the documented scoping rules
@@ -118,6 +119,21 @@ theorem static_terminates (env : Table) (name : String) (line : Nat) : (useStati
   unfold useStatic
   apply expandStatic_isSome
   omega
+
+/-- The general executable walk `walkItems` - the model that is compared with the real handler on every
+generated project - computes exactly the static kernel on a page without definitions and include
+replacements (parser-fresh references), so it terminates there too, for every project table, with the
+same expanded items, the circular diagnostics filed under the current file and the unresolved
+references queued for the end of the page. -/
+theorem walk_eq_static_and_terminates (proj : Table) (hf : freshEnv proj) (st : St) (hp : Plain st)
+    (ha : st.active = []) (name : String) (line : Nat) :
+    ∃ r, useStatic proj name line = some r ∧
+      walkItems proj (sroom proj [] + 2) st [.ref name line false []] = some (After st r.2, r.1) := by
+  have hs := static_terminates proj name line
+  obtain ⟨r, hr⟩ := Option.isSome_iff_exists.1 hs
+  refine ⟨r, hr, ?_⟩
+  apply walk_of_static proj hf _ st _ r hp (by simp [fresh])
+  rw [ha]; exact hr
 
 /-- a reference to a name that is being expanded is reported as circular and left empty -/
 theorem static_cycle_reported (env : Table) (rec : SRec) (path : List String) (name : String) (line : Nat)
